@@ -72,7 +72,7 @@ func LastElemSitesSSA(fn *ssa.Function) []LastSite {
 			}
 			s := LastSite{Fn: fn, Instr: in, X: x, Param: -1}
 			edges := NonEmptyEdges(fn, x)
-			if len(edges) > 0 && !Reachable(fn.Blocks[0], edges)[b] {
+			if len(edges) > 0 && !ReachableCorr(fn.Blocks[0], edges)[b] {
 				s.Guarded, s.How = true, "every path to the access takes an edge that implies len > 0"
 			}
 			for i, p := range fn.Params {
@@ -94,5 +94,5 @@ func ArgNonEmptyAt(call ssa.CallInstruction, a ssa.Value) bool {
 	if len(edges) == 0 {
 		return false
 	}
-	return !Reachable(fn.Blocks[0], edges)[call.Block()]
+	return !ReachableCorr(fn.Blocks[0], edges)[call.Block()]
 }
